@@ -59,6 +59,10 @@ pub struct ConnScript {
     pub faulty: bool,
     /// fail the k-th transport write on this connection (1-based; 0 = never)
     pub fail_write_at: usize,
+    /// only that one: the transport accepts writes again afterwards
+    pub fail_once: bool,
+    /// what the failing write hands over before it reports the error: 0 nothing, 1 a prefix, 2 everything
+    pub fail_deliver: u8,
 }
 
 #[derive(Debug, Clone)]
@@ -98,7 +102,8 @@ impl Scenario {
     pub fn to_json(&self) -> Value {
         json!({"family":"server","sid":self.sid,"fair":self.fair,
             "conns": self.conns.iter().map(|c| json!({"calls": c.calls.iter().map(kind_to_json).collect::<Vec<_>>(),
-                                                     "faulty": c.faulty, "fail_write_at": c.fail_write_at})).collect::<Vec<_>>(),
+                                                     "faulty": c.faulty, "fail_write_at": c.fail_write_at,
+                                                     "fail_once": c.fail_once, "fail_deliver": c.fail_deliver})).collect::<Vec<_>>(),
             "steps": self.steps.iter().map(|s| match s {
                 Step::Connect(c) => json!(["connect", c]),
                 Step::Send{c,frames,extra} => json!(["send", c, frames, extra]),
@@ -121,6 +126,8 @@ impl Scenario {
                     calls: c["calls"].as_array().unwrap().iter().map(kind_from_json).collect(),
                     faulty: c["faulty"].as_bool().unwrap_or(false),
                     fail_write_at: c["fail_write_at"].as_u64().unwrap_or(0) as usize,
+                    fail_once: c["fail_once"].as_bool().unwrap_or(false),
+                    fail_deliver: c["fail_deliver"].as_u64().unwrap_or(0) as u8,
                 })
                 .collect(),
             steps: v["steps"]
@@ -336,7 +343,13 @@ pub fn run(sc: &Scenario, stats: &mut Stats) {
         w.write_yield = true;
         if sc.conns[c].fail_write_at > 0 {
             w.fail_write_at = Some(sc.conns[c].fail_write_at);
+            w.fail_write_once = sc.conns[c].fail_once;
+            w.fail_deliver = sc.conns[c].fail_deliver;
         }
+        w.on_failed_write = Some(crate::wire::OnWrite(Box::new(|tag, buf| {
+            let (frames, tail) = parse_written(buf);
+            ev(json!({"ev":"wrote_partial","w":tag,"frames":frames,"tail":tail}));
+        })));
         w.on_write = Some(crate::wire::OnWrite(Box::new(|tag, buf| {
             let (frames, tail) = parse_written(buf);
             ev(json!({"ev":"wrote","w":tag,"frames":frames,"tail":tail}));
@@ -367,7 +380,9 @@ pub fn run(sc: &Scenario, stats: &mut Stats) {
         .collect();
     ev(json!({"ev":"reset","sid":sc.sid,"fair":sc.fair,"n":n,
         "conns": sc.conns.iter().map(|c| json!({"calls": c.calls.iter().map(kind_to_json).collect::<Vec<_>>(),
-                                                 "faulty": c.faulty || c.fail_write_at > 0})).collect::<Vec<_>>()}));
+                                                 "faulty": c.faulty || c.fail_write_at > 0,
+                                                 // the only fault is on the write side: what reaches the client is still judged
+                                                 "wonly": c.fail_write_at > 0 && !c.faulty})).collect::<Vec<_>>()}));
     let q = Rc::new(RefCell::new(VecDeque::new()));
     let svc_streams: Rc<RefCell<Vec<Ctl>>> = Default::default();
     let server = Server::new(L(q.clone()), Svc { streams: svc_streams.clone(), yield_in_handle: true });
@@ -574,8 +589,29 @@ fn rand_steps(r: &mut Rng, conns: &[ConnScript], whole_frames: bool, faults: &[(
 pub fn gen_healthy(r: &mut Rng, sid: String, streams: bool) -> Scenario {
     let n = r.range(1, 4);
     let conns: Vec<ConnScript> = (0..n)
-        .map(|_| ConnScript { calls: (0..r.below(6)).map(|_| rand_kind(r, streams)).collect(), faulty: false, fail_write_at: 0 })
+        .map(|_| ConnScript { calls: (0..r.below(6)).map(|_| rand_kind(r, streams)).collect(), faulty: false, fail_write_at: 0, fail_once: false, fail_deliver: 0 })
         .collect();
+    let steps = rand_steps(r, &conns, false, &[]);
+    Scenario { sid, conns, steps, fair: false }
+}
+
+/// C08 on connections whose transport fails a write (for good or once, having handed over nothing, a part
+/// or everything): calls keep coming behind the failure; what reaches each client is judged.
+pub fn gen_wfault(r: &mut Rng, sid: String) -> Scenario {
+    let n = r.range(1, 3);
+    let mut conns: Vec<ConnScript> = (0..n)
+        .map(|_| ConnScript {
+            calls: (0..r.range(2, 6)).map(|_| { let st = r.chance(1, 3); rand_kind(r, st) }).collect(),
+            faulty: false,
+            fail_write_at: 0,
+            fail_once: false,
+            fail_deliver: 0,
+        })
+        .collect();
+    let c = r.below(n as u64) as usize;
+    conns[c].fail_write_at = r.range(1, 3);
+    conns[c].fail_once = r.chance(3, 4);
+    conns[c].fail_deliver = r.below(3) as u8;
     let steps = rand_steps(r, &conns, false, &[]);
     Scenario { sid, conns, steps, fair: false }
 }
@@ -585,7 +621,7 @@ pub fn gen_faulty(r: &mut Rng, sid: String) -> Scenario {
     let n = r.range(2, 4);
     let nf = if n > 2 && r.chance(1, 3) { 2 } else { 1 };
     let mut conns: Vec<ConnScript> = (0..n)
-        .map(|_| ConnScript { calls: (0..r.range(0, 5)).map(|_| rand_kind(r, true)).collect(), faulty: false, fail_write_at: 0 })
+        .map(|_| ConnScript { calls: (0..r.range(0, 5)).map(|_| rand_kind(r, true)).collect(), faulty: false, fail_write_at: 0, fail_once: false, fail_deliver: 0 })
         .collect();
     let mut faults = Vec::new();
     let mut picked: Vec<usize> = Vec::new();
@@ -597,10 +633,18 @@ pub fn gen_faulty(r: &mut Rng, sid: String) -> Scenario {
     }
     for c in picked {
         conns[c].faulty = true;
-        match r.below(6) {
+        match r.below(7) {
             0 => faults.push((c, 0u8)),                                // disconnect (EOF), possibly mid-burst / mid-frame
             1 => faults.push((c, 1u8)),                                // read error
-            2 => conns[c].fail_write_at = r.range(1, 4),               // write error on the k-th write
+            2 | 6 => {
+                // write error on the k-th write: for good, or only that once (the transport takes writes again
+                // afterwards), having handed over nothing, part or all of the bytes.  Nothing else is wrong with
+                // this connection, so what reaches its client is still judged (ServerTrace: wonly).
+                conns[c].faulty = false;
+                conns[c].fail_write_at = r.range(1, 4);
+                conns[c].fail_once = r.chance(2, 3);
+                conns[c].fail_deliver = r.below(3) as u8;
+            }
             3 => {
                 let at = r.range(0, conns[c].calls.len());
                 conns[c].calls.insert(at, Kind::Bad(r.below(3) as u8)); // a call the service cannot decode
@@ -646,7 +690,7 @@ pub fn gen_fair(r: &mut Rng, sid: String, transitions: bool) -> Scenario {
         } else {
             (0..r.range(1, 2)).map(|_| Kind::Plain(r.range(0, 10))).collect()
         };
-        conns.push(ConnScript { calls, faulty: false, fail_write_at: 0 });
+        conns.push(ConnScript { calls, faulty: false, fail_write_at: 0, fail_once: false, fail_deliver: 0 });
     }
     let mut steps = Vec::new();
     // flooders connect and deliver everything first
@@ -708,7 +752,7 @@ pub fn gen_fair_mixed(r: &mut Rng, sid: String) -> Scenario {
             1 => (0..r.range(1, 3)).map(|_| Kind::Plain(r.range(0, 10))).collect(),
             _ => vec![Kind::Stream(r.below(3) as u32, true)],
         };
-        conns.push(ConnScript { calls, faulty: false, fail_write_at: 0 });
+        conns.push(ConnScript { calls, faulty: false, fail_write_at: 0, fail_once: false, fail_deliver: 0 });
     }
     let mut steps = Vec::new();
     let mut to_connect: Vec<usize> = (0..n).collect();
@@ -775,6 +819,8 @@ pub fn from_model_behaviour(v: &Value, sid: String) -> Scenario {
                 .collect(),
             faulty: s.as_array().unwrap().iter().any(|k| k[0] == "bad"),
             fail_write_at: 0,
+            fail_once: false,
+            fail_deliver: 0,
         })
         .collect();
     let mut faulty: Vec<usize> = Vec::new();
